@@ -245,6 +245,17 @@ impl ParseState {
                 Item::ArrayOfTables(ref mut array) => {
                     debug_assert!(!array.is_empty());
 
+                    // The elements were defined in [[table]] form: like tables defined in
+                    // [table] form, they cannot be extended using dotted keys.
+                    if dotted {
+                        if let Some(next) = path.get(i + 1) {
+                            return Err(CustomError::DuplicateKey {
+                                key: next.get().into(),
+                                table: None,
+                            });
+                        }
+                    }
+
                     let index = array.len() - 1;
                     let last_child = array.get_mut(index).unwrap();
 
